@@ -27,7 +27,7 @@ func Main(prop, tier string) int {
 	r := vk.New("C19", tier)
 	r.Rule = "generated trees (depth<=4, <=60 entries: empty dirs, hidden files and dirs, symlinks to files / to sibling directories / broken, names with spaces, newlines, non-ASCII, leading dashes) x all 12 combinations of file/dir (at least one) x follow x hidden x skip lists (none, existing base names, relative paths, path suffixes, leading-separator suffixes, near-miss names) x roots ('.', a sub-directory, two roots): the multiset of paths pushed by the walker must equal the reference walk; distinct = (option combination, skip-list kind, root kind, tree features) signatures"
 	r.Assumptions = []string{"trees contain no symlink cycles; directory links point to sibling subtrees", "the root itself may or may not be listed", "under follow a symlinked directory counts as a directory (listed with the separator under dir, not under file)"}
-	r.Fanout("c19", vk.NumWorkers(), 30*time.Minute)
+	r.Fanout("c19", vk.NumWorkers(), 90*time.Minute)
 	// the scratch directory must be traversable and writable by the unprivileged worker
 	os.Chmod(vk.Scratch(), 0o777)
 	r.Fanout("c19priv", 1, 5*time.Minute)
@@ -267,7 +267,7 @@ func worker(r *vk.Run, w, n int, args []string) {
 	defer os.RemoveAll(base)
 	trees := 1600
 	if !r.Quick() {
-		trees = 60000
+		trees = 400000
 	}
 	per := trees/n + 1
 	opts := allOpts()
